@@ -654,6 +654,43 @@ fn c08_width(v: &View, idx: u32, role: Role, side: Side) -> Vec<Violation> {
             }
         }
     }
+    // CONNECTION_CLOSE packets do not pass the datagram interceptor: take the datagram from the
+    // simulated network instead (1-RTT close packets are sent alone in their datagram)
+    let my_addr = match role {
+        Role::Server => o.server_addr,
+        Role::Client => o.client_addrs.get(idx as usize).copied(),
+    };
+    if let Some(addr) = my_addr {
+        for (ti, la) in pending.iter() {
+            let t = &o.obs.tx[*ti];
+            if t.space != Space::App || t.byz.is_some() {
+                continue;
+            }
+            let is_close = v.tx_frames[*ti].as_ref().map_or(false, |f| f.iter().any(|f| matches!(f, Frame::ConnectionClose { .. })));
+            if !is_close {
+                continue;
+            }
+            let Some(rec) = o.net.log.iter().find(|r| r.src == addr && r.t_send_ns >= t.t_ns && r.first_byte & 0x80 == 0) else { continue };
+            let pn_len = rec.len as i64 - 1 - peer_cid_len as i64 - t.payload.len() as i64 - 16;
+            if !(1..=4).contains(&pn_len) {
+                continue; // coalesced or not the close datagram: not attributable
+            }
+            let range = match la {
+                Some(l) => t.pn.saturating_sub(*l),
+                None => t.pn + 1,
+            };
+            let bits = 8 * pn_len as u32;
+            if (1u128 << bits) < 2 * range as u128 {
+                out.push(viol(
+                    "C08",
+                    "c08.pn_truncation_too_short",
+                    "pn_truncation_too_short",
+                    format!("conn {idx} {role:?} App pn {} (CONNECTION_CLOSE): encoded in {} bytes but largest acknowledged is {:?} (range {})", t.pn, pn_len, la, range),
+                ));
+                return out;
+            }
+        }
+    }
     out
 }
 
